@@ -9,7 +9,7 @@ THEOREMS = [
     "Ztr.Digraph.C20_emitted_is_segment",
 ]
 RULE = ("all digraphs with self-loops on <= 3 nodes (quick) / <= 4 nodes (thorough, 2**16) x node insertion orders, "
-        "hashable-int and id()-keyed object nodes, edges to unknown nodes, repeated add_neighbors, nodes that never "
+        "hashable-int, id()-keyed object nodes and id()-keyed unhashable objects that compare equal by value, edges to unknown nodes, repeated add_neighbors, nodes that never "
         "get add_neighbors; random graphs up to 40 nodes; both trivial modes. Non-trivial = graph has an edge; "
         "distinct by (edges, insertion order, mode)")
 ASSUMPTIONS = [
@@ -26,6 +26,19 @@ class Obj:
         self.k = k
 
 
+class EqObj:
+    """identity-keyed node objects that compare equal by value (and are unhashable): nodes i and i+2 are
+    equal but distinct, as value objects caught in a cycle report would be"""
+    __slots__ = ("k",)
+    __hash__ = None
+
+    def __init__(self, k):
+        self.k = k
+
+    def __eq__(self, other):
+        return isinstance(other, EqObj) and self.k % 2 == other.k % 2
+
+
 def build(n, edges, order, mode, unknown, skip_nb):
     """Real DiGraph.  nodes 0..n-1 inserted in `order`; `edges` set of (a, b);
     mode 'int' (make_hashable=None) or 'id'."""
@@ -35,11 +48,11 @@ def build(n, edges, order, mode, unknown, skip_nb):
         g = DiGraph(make_hashable=None)
         key = lambda o: o  # noqa: E731
     else:
-        objs = [Obj(i) for i in range(n)]
+        objs = [(EqObj if mode == "eq" else Obj)(i) for i in range(n)]
         g = DiGraph()
         key = id
     g.add_nodes([objs[i] for i in order])
-    extra = Obj(-1) if mode == "id" else n + 100
+    extra = n + 100 if mode == "int" else (EqObj(-1) if mode == "eq" else Obj(-1))
     for a in order:
         nb = [objs[b] for (x, b) in sorted(edges) if x == a]
         if not nb and a in skip_nb:
@@ -101,7 +114,7 @@ def cases(ctx):
                 ctx.rng.shuffle(o)
                 orders.append(o)
             for order in orders[:1 if (n == 4 or ctx.quick() and n == 3) else 2]:
-                mode = "int" if (mask + n) % 2 == 0 else "id"
+                mode = ("int", "id", "eq")[(mask + n) % 3]
                 yield n, edges, order, mode, (mask % 5 == 0), frozenset(range(n)) if mask % 3 == 0 else frozenset()
     for _ in range(200 if ctx.quick() else 4000):
         n = ctx.rng.randint(2, 40)
@@ -109,7 +122,7 @@ def cases(ctx):
         edges = frozenset((a, b) for a in range(n) for b in range(n) if ctx.rng.random() < dens)
         order = list(range(n))
         ctx.rng.shuffle(order)
-        yield n, edges, order, ctx.rng.choice(["int", "id"]), ctx.rng.random() < 0.3, \
+        yield n, edges, order, ctx.rng.choice(["int", "id", "eq"]), ctx.rng.random() < 0.3, \
             frozenset(range(n)) if ctx.rng.random() < 0.4 else frozenset()
 
 
